@@ -169,10 +169,14 @@ def plan_c15(tier):
                           update_every=3, tag="f", seed_offset=0))
         parts.append(dict(n=3 if tier == "quick" else 20, blocks=28, flags=fl, chain="regtest", update_every=4,
                           tag="g", seed_offset=1, family="runes"))
+    # signet from genesis: runes are active from height 0, inscriptions from 112,402 -- rune results must not depend on
+    # whether the sat index forces full blocks (this found C15-signet-runes-below-first-inscription-height)
+    for fl in ["runes", "sats,runes"] + (["runes,addresses", "runes,transactions"] if tier == "thorough" else []):
+        parts.append(dict(n=1 if tier == "quick" else 6, blocks=20, flags=fl, chain="signet", update_every=4, tag="sg", seed_offset=3, family="runes"))
     if tier == "thorough":
-        # signet: blocks below the first inscription height (112,402) are header-only, so the values of the
-        # outputs spent afterwards are fetched from the node (the path without a full UTXO index)
-        for fl in ["runes", "", "runes,transactions"]:
+        # signet: blocks below the first inscription height (112,402) are header-only unless runes are indexed, so the
+        # values of the outputs spent afterwards are fetched from the node (the path without a full UTXO index)
+        for fl in ["", "transactions", "runes"]:
             parts.append(dict(n=2, blocks=18, flags=fl, chain="signet", update_every=3, tag="h", seed_offset=2, family="signet"))
     return parts
 
